@@ -26,7 +26,8 @@ from lib.vcommon import hexb
 
 LEVEL = "proof"
 ASSUMPTIONS = [
-    "application strings are plain str objects (a str subclass overriding __contains__/lower/capitalize is application code attacking itself); header pairs may be tuples or lists, mutated or not after the call",
+    "application strings are plain str objects (a str subclass overriding __contains__/lower/capitalize is application code attacking itself: start_response's `in` / lower() tests consult the subclass; observed for the record in the evidence, not judged); header pairs may be tuples or lists, mutated or not after the call",
+    "the header CONTAINER's iteration protocol (tuple, generator, one-shot iterator, list subclass / pair objects with impure __iter__) is outside Model/Task.v, whose start_response takes a pure list = the one snapshot the real start_response takes (fix b4f05b1); that the real code validates and sends the SAME snapshot is covered by K-task + the head-line search on scripted containers only",
     "str.capitalize / str.lower on arbitrary code points enter the theorems as Section variables with the hypothesis 'no CR, LF is produced from a string without CR, LF'; the hypothesis is tested on every run over all 0x110000 code points; the theorems are closed by a concrete instance that is exact below 256",
     "server configuration strings (ident, the date produced by build_http_date) contain no CR/LF and are latin-1",
     "C08 is stated at the level of head lines: a header name containing ':' or ' ' yields one line, exactly name ': ' value",
@@ -296,7 +297,10 @@ def run(ctx):
     swallow = T.swallow_cases(rng, ctx.tier) + T.random_swallow_cases(rng, ctx.tier)
     # the server's own error path fed hostile text (traceback text, parser messages, ident): the 500 /
     # 4xx head stays a function of server strings, whatever '%', '{}', CR/LF, NUL, non-latin-1 the BODY carries
-    cases = cases + table + swallow + T.hostile_error_cases(rng, ctx.tier)
+    # header CONTAINERS whose iteration is not repeatable / not pure (tuple, generator, one-shot iterator, a list
+    # subclass or pair objects yielding other pairs on a later pass): the wire must be the serialisation of the ONE
+    # snapshot start_response validated (the pairs of the case are the first pass; fix b4f05b1)
+    cases = cases + table + swallow + T.hostile_error_cases(rng, ctx.tier) + T.container_cases(rng, ctx.tier)
     lines = [T.ser_case(c) for _, c in cases]
     answers = runner.query(lines) if runner is not None else [None] * len(lines)
     agree = True
@@ -353,7 +357,15 @@ def run(ctx):
         ctx.report("c08-proof-broken", "Props/C08.v no longer checks (%s)" % failing,
                    {"failing_input_found": False, "broken": "Props/C08.v via %s" % failing, "log_tail": (log or "")[-1500:]})
 
+    # outside the quantifier, for the record: str subclasses whose __contains__ / lower() lie
+    liars = {}
+    for tag, case in T.liar_cases():
+        real, _ = T.run_real(case)
+        hl = head_lines(T.wire_of(real)) or []
+        liars[tag[1]] = "500" if real["s500"] == "1" else ("CR/LF reached the head" if any(b"\r" in l or b"\n" in l for l in hl)
+                                                          or len(hl) > 6 else "emitted")
     ctx.coverage.update({
+        "outside_quantifier_lying_str_subclasses_observed": liars,
         "evaluations": len(cases),
         "distinct_nontrivial": len(nontrivial),
         "rule": "non-trivial = distinct response heads written by the real task for an accepted start_response; cases: every hostile code point at every position of status/name/value x 10 ways of reaching start_response (5 of them with the refusal swallowed by the application), structural specials, non-str objects, mutation after the call, random header lists, a slice of the framing decision table, every raise site of start_response swallowed x every way of producing output afterwards, random scripts with swallowed refusals",
